@@ -103,6 +103,11 @@ func (verifNdDM) UnmarshalFirst(data []byte, v interface{}) ([]byte, error) {
 	verifCalls++
 	if len(data) == 0 || ndBool(ndName("stub.err", i)) {
 		verifStubErr = true
+		if _, isKey := v.(*int); isKey && len(data) > 0 && ndBool(ndName("stub.err.type", i)) {
+			// a well-formed item that does not fit the destination (e.g. a text label where an
+			// integer is wanted): the library reports this class with its own error type
+			return nil, &cbor.UnmarshalTypeError{CBORType: "item", GoType: "int"}
+		}
 		return nil, verifErrStub
 	}
 	k := ndInt(ndName("stub.consumed", i))
